@@ -167,6 +167,7 @@ pub struct Stats {
     pub once_seen: AtomicU64,
     pub ambiguous: AtomicU64,
     pub values_compared: AtomicU64,
+    pub child_values_judged: AtomicU64,
 }
 
 /// One case: optional earlier position command (`prev`), then `position start moves h`, then a
@@ -275,6 +276,7 @@ pub fn check_history_limit(fl: &mut Option<Flounder>, cache: &RefCache, rep: &Re
         }
         let b: Board = *f.verif_board();
         crate::search::verif::set_repetition_trace(true);
+        crate::search::verif::set_child_value_trace(true);
         let (score, mv) = if interlude.is_some() {
             // the real go command: whatever the handler does between the command and the search
             // is part of the case; its score is not visible here, the decisions at ply 1 are
@@ -287,7 +289,9 @@ pub fn check_history_limit(fl: &mut Option<Flounder>, cache: &RefCache, rep: &Re
         let trace = crate::search::verif::take_repetition_trace();
         // the same decision at every ply of a deeper search (the test precedes the table probe
         // in negamax, so whatever the depth-1 search cached cannot hide a node's decision)
-        let deep_depth = DEEP_DEPTH.load(Ordering::Relaxed) as u8;
+        // a root that has itself occurred before can come back at ply 4: one ply more then
+        let root_seen_before = game[..game.len() - 1].iter().any(|g| eng::key_of_pos(g) == eng::key_of_pos(&root));
+        let deep_depth = (DEEP_DEPTH.load(Ordering::Relaxed) as u8).max(if root_seen_before { 4 } else { 0 });
         let deep = if interlude.is_none() && deep_depth > 1 && ((prev_cmd.is_none() && limit.is_none()) || DEEP_PAIRS.load(Ordering::Relaxed) != 0) {
             let _ = f.verif_searcher().find_best_move(&b, deep_depth, limit);
             crate::search::verif::take_repetition_trace()
@@ -295,12 +299,15 @@ pub fn check_history_limit(fl: &mut Option<Flounder>, cache: &RefCache, rep: &Re
             Vec::new()
         };
         crate::search::verif::set_repetition_trace(false);
-        (b, score, mv, trace, deep)
+        let child_values = crate::search::verif::take_child_values();
+        crate::search::verif::set_child_value_trace(false);
+        (b, score, mv, trace, deep, child_values)
     });
-    let (b, score, mv, trace, deep) = match r {
+    let (b, score, mv, trace, deep, child_values) = match r {
         Ok(x) => x,
         Err(e) => {
             crate::search::verif::set_repetition_trace(false);
+            crate::search::verif::set_child_value_trace(false);
             *fl = None;
             rep.violation(format!("C09 {} panic", sig_tail), format!("{}: {}", sig_tail, e), args, J::Null);
             return;
@@ -309,6 +316,56 @@ pub fn check_history_limit(fl: &mut Option<Flounder>, cache: &RefCache, rep: &Re
     if eng::key_of(&b) != eng::key_of_pos(&root) {
         // C04's business; without the right root nothing can be judged here
         return;
+    }
+    // ---- the value every searched child handed back to its parent (all searches of this case, all
+    // plies): a child that is a third occurrence is worth exactly 0, whatever the table holds for
+    // it and wherever in the tree it stands. A bound is accepted when 0 lies on its side of the
+    // child's window (a fail-hard search may return the window's edge).
+    {
+        let no_ep = |mut k: EKey| {
+            k.ep = 255;
+            k
+        };
+        let game_no_ep: std::collections::HashSet<EKey> = game.iter().map(|g| no_ep(eng::key_of_pos(g))).collect();
+        let mut verdicts: HashMap<EKey, bool> = HashMap::new();
+        for (tb, ply, value, lo, hi) in &child_values {
+            let k = eng::key_of(tb);
+            if !game_no_ep.contains(&no_ep(k)) {
+                continue;
+            }
+            let third = match verdicts.get(&k) {
+                Some(t) => *t,
+                None => {
+                    let t = match eng::pos_of(tb) {
+                        Ok(tp) => {
+                            let (strict, fide) = occurrences(&game, &tp);
+                            strict >= 2 && fide >= 2
+                        }
+                        Err(_) => false,
+                    };
+                    verdicts.insert(k, t);
+                    t
+                }
+            };
+            if !third {
+                continue;
+            }
+            st.child_values_judged.fetch_add(1, Ordering::Relaxed);
+            let v = *value;
+            let consistent = if v <= *lo { v >= 0 } else if v >= *hi { v <= 0 } else { v == 0 };
+            if !consistent {
+                rep.violation(
+                    format!("C09 {} child-value ply={} pos={}", sig_tail, ply, eng::describe_key(&k)),
+                    format!(
+                        "{}: at ply {} the search reached {} , which occurred twice before in the game (a third occurrence), searched it with the window ({}, {}) and took {} as its value instead of the draw score 0",
+                        sig_tail, ply, eng::describe_key(&k), lo, hi, v
+                    ),
+                    args.clone(),
+                    J::obj().set("value_returned_by_the_child", v).set("ply", *ply as u64),
+                );
+                break;
+            }
+        }
     }
     // ---- deeper plies: every node the deeper search visited
     {
@@ -661,6 +718,7 @@ pub fn run(tier: &str, seed: u64, out: &str) {
         once_seen: AtomicU64::new(0),
         ambiguous: AtomicU64::new(0),
         values_compared: AtomicU64::new(0),
+        child_values_judged: AtomicU64::new(0),
     };
     let mut parts = Vec::new();
     let mut samples = Vec::new();
@@ -776,6 +834,7 @@ pub fn run(tier: &str, seed: u64, out: &str) {
         .set("candidates_seen_exactly_once_before", st.once_seen.load(Ordering::Relaxed))
         .set("candidates_not_judged_en_passant_ambiguity", st.ambiguous.load(Ordering::Relaxed))
         .set("depth1_values_compared", st.values_compared.load(Ordering::Relaxed))
+        .set("values_returned_by_third_occurrence_children_judged", st.child_values_judged.load(Ordering::Relaxed))
         .set("deeper_search", J::obj().set("depth", if thorough { "4 (small material: 5)" } else { "3 (small material: 4)" }).set("applied_to", if thorough { "every case" } else { "every single-command case (command pairs get the depth-1 search only)" }).set("rule", "after the depth-1 search the same engine searches the same root to this depth with the repetition trace on; the decision the real negamax takes at every visited node of ply >= 1 must equal 'occurred at least twice in the game given by the command (root included)'").set("node_visits_at_positions_never_seen_in_the_game", st.deep_plain.load(Ordering::Relaxed)).set("decisions_judged_at_positions_matching_a_game_position", st.deep_nodes.load(Ordering::Relaxed)).set("of_which_third_occurrences", st.deep_draws.load(Ordering::Relaxed)).set("of_which_seen_exactly_once", st.deep_once.load(Ordering::Relaxed)))
         .set("starts", J::Arr(parts))
         .set("samples", J::Arr(samples))
@@ -809,6 +868,7 @@ pub fn replay(start: &str, moves: &str, prev: Option<&str>) -> i32 {
         once_seen: AtomicU64::new(0),
         ambiguous: AtomicU64::new(0),
         values_compared: AtomicU64::new(0),
+        child_values_judged: AtomicU64::new(0),
     };
     let parse = |t: &str| -> Vec<Mv> { t.split_whitespace().map(|x| Mv::parse(x).unwrap()).collect() };
     let h = parse(moves);
